@@ -427,6 +427,7 @@ func GenScript(c *verifsim.Chooser, cfg GenCfg) *Script {
 			ps[0] = g.pick("g0", "g1")
 		}
 		g.params = ps
+		fnStart := g.sb.Len()
 		g.w("function f%d(%s) {\nlocal l0;\nlocal l1;\nl0 = %d;\n", f, strings.Join(ps, ", "), c.Intn(3))
 		g.inFn, g.nparam, g.depth = true, g.arity[f], 1
 		m := 1 + c.Intn(4)
@@ -446,6 +447,16 @@ func GenScript(c *verifsim.Chooser, cfg GenCfg) *Script {
 		}
 		g.inFn, g.nparam, g.depth = false, 0, 0
 		g.w("}\n")
+		if c.Intn(4) == 1 {
+			// the same function again under other names (an engine that
+			// shares what identical bodies compile to must still treat
+			// them as separate functions)
+			def := g.sb.String()[fnStart:]
+			head := fmt.Sprintf("function f%d(", f)
+			for d := 0; d <= c.Intn(2); d++ {
+				g.sb.WriteString(strings.Replace(def, head, fmt.Sprintf("function d%d_%d(", f, d), 1))
+			}
+		}
 	}
 	text := g.sb.String() + body.String()
 	return &Script{
